@@ -543,6 +543,33 @@ func ceilMi(qty resource.Quantity) int64 {
 	return (v + 1024*1024 - 1) / (1024 * 1024)
 }
 
+// ExtractClaim canonicalises one in-memory NodeClaim of the scheduler.
+func ExtractClaim(nc *provsched.NodeClaim) ClaimOut {
+	c := ClaimOut{Pool: nc.NodePoolName, Reqs: map[string]rg.Snap{}, Taints: fromTaints(nc.Spec.Taints)}
+	for _, p := range nc.Pods {
+		c.Pods = append(c.Pods, p.Name)
+	}
+	sort.Strings(c.Pods)
+	for k, r := range nc.Requirements {
+		c.Reqs[k] = rg.SnapOf(r)
+	}
+	for _, it := range nc.InstanceTypeOptions {
+		c.InstanceTypes = append(c.InstanceTypes, it.Name)
+	}
+	sort.Strings(c.InstanceTypes)
+	req := nc.Spec.Resources.Requests
+	c.ReqCPU = req.Cpu().MilliValue()
+	c.ReqMem = ceilMi(*req.Memory())
+	c.ReqPods = req.Pods().Value()
+	return c
+}
+
+// FromTaints converts taints to the scenario form.
+func FromTaints(ts []corev1.Taint) []Taint { return fromTaints(ts) }
+
+// CeilMi rounds a memory quantity up to Mi.
+func CeilMi(qty resource.Quantity) int64 { return ceilMi(qty) }
+
 // Extract canonicalises scheduling results.
 func Extract(res provsched.Results) Outcome {
 	out := Outcome{Existing: []ExistingOut{}, Claims: []ClaimOut{}, Errors: map[string]string{}}
@@ -559,23 +586,7 @@ func Extract(res provsched.Results) Outcome {
 	}
 	sort.Slice(out.Existing, func(i, j int) bool { return out.Existing[i].Node < out.Existing[j].Node })
 	for _, nc := range res.NewNodeClaims {
-		c := ClaimOut{Pool: nc.NodePoolName, Reqs: map[string]rg.Snap{}, Taints: fromTaints(nc.Spec.Taints)}
-		for _, p := range nc.Pods {
-			c.Pods = append(c.Pods, p.Name)
-		}
-		sort.Strings(c.Pods)
-		for k, r := range nc.Requirements {
-			c.Reqs[k] = rg.SnapOf(r)
-		}
-		for _, it := range nc.InstanceTypeOptions {
-			c.InstanceTypes = append(c.InstanceTypes, it.Name)
-		}
-		sort.Strings(c.InstanceTypes)
-		req := nc.Spec.Resources.Requests
-		c.ReqCPU = req.Cpu().MilliValue()
-		c.ReqMem = ceilMi(*req.Memory())
-		c.ReqPods = req.Pods().Value()
-		out.Claims = append(out.Claims, c)
+		out.Claims = append(out.Claims, ExtractClaim(nc))
 	}
 	sort.Slice(out.Claims, func(i, j int) bool {
 		return strings.Join(out.Claims[i].Pods, ",") < strings.Join(out.Claims[j].Pods, ",")
